@@ -48,14 +48,38 @@ var (
 	ltrTypes = []model.FeatureTypeType{model.FeatureTypeTypeLoadControl, model.FeatureTypeTypeSetpoint, model.FeatureTypeTypeDeviceDiagnosis, model.FeatureTypeTypeMeasurement, model.FeatureTypeTypeGeneric}
 	ltrRoles = []model.RoleType{model.RoleTypeClient, model.RoleTypeServer, model.RoleTypeSpecial}
 	ltrFns   = []model.FunctionType{model.FunctionTypeLoadControlLimitListData, model.FunctionTypeLoadControlLimitDescriptionListData, model.FunctionTypeSetpointListData,
-		model.FunctionTypeDeviceDiagnosisStateData, model.FunctionTypeMeasurementListData, model.FunctionTypeMeasurementDescriptionListData}
+		model.FunctionTypeDeviceDiagnosisStateData, model.FunctionTypeMeasurementListData, model.FunctionTypeMeasurementDescriptionListData,
+		model.FunctionTypeDeviceDiagnosisHeartbeatData}
 	ltrNmFns = []model.FunctionType{model.FunctionTypeNodeManagementDetailedDiscoveryData, model.FunctionTypeNodeManagementUseCaseData, model.FunctionTypeNodeManagementSubscriptionData,
 		model.FunctionTypeNodeManagementSubscriptionRequestCall, model.FunctionTypeNodeManagementSubscriptionDeleteCall, model.FunctionTypeNodeManagementBindingData,
 		model.FunctionTypeNodeManagementBindingRequestCall, model.FunctionTypeNodeManagementBindingDeleteCall, model.FunctionTypeNodeManagementDestinationListData,
 		model.FunctionTypeDeviceClassificationManufacturerData}
 	ltrETypes = []model.EntityTypeType{model.EntityTypeTypeDeviceInformation, model.EntityTypeTypeCEM, model.EntityTypeTypeEVSE, model.EntityTypeTypeEV, model.EntityTypeTypeGeneric}
 	ltrSlots  = [][]uint{{0}, {1}, {2}, {1, 1}, {3}}
+	ltrDTypes = []model.DeviceTypeType{model.DeviceTypeTypeEnergyManagementSystem, model.DeviceTypeTypeGeneric, model.DeviceTypeTypeDishwasher}
+	ltrFSets  = []model.NetworkManagementFeatureSetType{"", model.NetworkManagementFeatureSetTypeGateway, model.NetworkManagementFeatureSetTypeRouter, model.NetworkManagementFeatureSetTypeSmart, model.NetworkManagementFeatureSetTypeSimple}
 )
+
+// ltrSendNames tells the model driver the names behind the harness's feature-type and function indices (the driver
+// looks the partial-update capability up in the regenerated factory table by name).
+func ltrSendNames(d *h.Driver) {
+	ask := func(l string) {
+		if a := d.Ask(l); a != "ok" {
+			panic("driver: " + l + " -> " + a)
+		}
+	}
+	for i, t := range ltrTypes {
+		ask(fmt.Sprintf("name t %d %s", i, t))
+	}
+	ask("name t 90 " + string(model.FeatureTypeTypeNodeManagement))
+	ask("name t 91 " + string(model.FeatureTypeTypeDeviceClassification))
+	for i, f := range ltrFns {
+		ask(fmt.Sprintf("name f %d %s", i, f))
+	}
+	for i, f := range ltrNmFns {
+		ask(fmt.Sprintf("name f %d %s", 100+i, f))
+	}
+}
 
 func ltrTypeCode(t model.FeatureTypeType) int {
 	for i, x := range ltrTypes {
@@ -147,18 +171,46 @@ func ltrDescrCode(d *model.DescriptionType) int {
 	return -1
 }
 
+// ltrDevStr renders a device description as the model does: address:deviceType:featureSet (indices; -1 = unknown,
+// feature set 0 = none announced)
+func ltrDevStr(d *model.NetworkManagementDeviceDescriptionDataType) string {
+	a, dt, fs := -1, -1, 0
+	if d != nil {
+		if d.DeviceAddress != nil && d.DeviceAddress.Device != nil && string(*d.DeviceAddress.Device) == "HEMS" {
+			a = 0
+		}
+		if d.DeviceType != nil {
+			for i, x := range ltrDTypes {
+				if x == *d.DeviceType {
+					dt = i
+				}
+			}
+		}
+		if d.NetworkFeatureSet != nil {
+			fs = -1
+			for i, x := range ltrFSets {
+				if i > 0 && x == *d.NetworkFeatureSet {
+					fs = i
+				}
+			}
+		}
+	}
+	return fmt.Sprintf("%d:%d:%d", a, dt, fs)
+}
+
 // ---- canonical view of one announced feature (from a datagram)
 
 type ltrFeatView struct {
 	slot, id, typ, role int
 	descr               string // text as announced ("" = none)
 	descrCode           int
-	fns                 map[int][2]bool
+	fns                 map[int][2]bool // read, write
+	part                map[int][2]bool // read.partial, write.partial
 	addr                *model.FeatureAddressType
 }
 
 func ltrViewOf(fi model.NodeManagementDetailedDiscoveryFeatureInformationType) ltrFeatView {
-	v := ltrFeatView{slot: -1, id: -1, typ: -1, role: -1, fns: map[int][2]bool{}}
+	v := ltrFeatView{slot: -1, id: -1, typ: -1, role: -1, fns: map[int][2]bool{}, part: map[int][2]bool{}}
 	d := fi.Description
 	if d == nil {
 		return v
@@ -185,20 +237,24 @@ func ltrViewOf(fi model.NodeManagementDetailedDiscoveryFeatureInformationType) l
 		if sf.Function != nil {
 			c = ltrFnCode(*sf.Function)
 		}
-		var rw [2]bool
-		if sf.PossibleOperations != nil {
-			rw[0] = sf.PossibleOperations.Read != nil
-			rw[1] = sf.PossibleOperations.Write != nil
+		var rw, pp [2]bool
+		if po := sf.PossibleOperations; po != nil {
+			rw[0] = po.Read != nil
+			rw[1] = po.Write != nil
+			pp[0] = po.Read != nil && po.Read.Partial != nil
+			pp[1] = po.Write != nil && po.Write.Partial != nil
 		}
 		if _, dup := v.fns[c]; dup {
 			c = -2 // a function announced twice
 		}
 		v.fns[c] = rw
+		v.part[c] = pp
 	}
 	return v
 }
 
-func (v ltrFeatView) fnStr() string {
+// fnStr: SPEC format fn/read/write; model format fn/read/read.partial/write/write.partial
+func (v ltrFeatView) fnStr(full bool) string {
 	var ks []int
 	for k := range v.fns {
 		ks = append(ks, k)
@@ -206,19 +262,37 @@ func (v ltrFeatView) fnStr() string {
 	sort.Ints(ks)
 	var p []string
 	for _, k := range ks {
-		p = append(p, fmt.Sprintf("%d/%d/%d", k, h.B2i(v.fns[k][0]), h.B2i(v.fns[k][1])))
+		if full {
+			p = append(p, fmt.Sprintf("%d/%d/%d/%d/%d", k, h.B2i(v.fns[k][0]), h.B2i(v.part[k][0]), h.B2i(v.fns[k][1]), h.B2i(v.part[k][1])))
+		} else {
+			p = append(p, fmt.Sprintf("%d/%d/%d", k, h.B2i(v.fns[k][0]), h.B2i(v.fns[k][1])))
+		}
 	}
 	return "[" + strings.Join(p, ",") + "]"
 }
 
-// model format: id:typ:role:descr:[fn/r/w,...]
+// partialOK: the SPEC side of the partial flags that needs no table — a partial read is never announced
+// ("partial reads are currently not supported"), a partial write only together with write
+func (v ltrFeatView) partialOK() string {
+	for k, pp := range v.part {
+		if pp[0] {
+			return fmt.Sprintf("function %d announces a partial read", k)
+		}
+		if pp[1] && !v.fns[k][1] {
+			return fmt.Sprintf("function %d announces a partial write without write", k)
+		}
+	}
+	return ""
+}
+
+// model format: id:typ:role:descr:[fn/r/rp/w/wp,...]
 func (v ltrFeatView) modelStr() string {
-	return fmt.Sprintf("%d:%d:%d:%d:%s", v.id, v.typ, v.role, v.descrCode, v.fnStr())
+	return fmt.Sprintf("%d:%d:%d:%d:%s", v.id, v.typ, v.role, v.descrCode, v.fnStr(true))
 }
 
 // SPEC format: the description is compared as text
 func (v ltrFeatView) specStr() string {
-	return fmt.Sprintf("%d:%d:%d:%q:%s", v.id, v.typ, v.role, v.descr, v.fnStr())
+	return fmt.Sprintf("%d:%d:%d:%q:%s", v.id, v.typ, v.role, v.descr, v.fnStr(false))
 }
 
 // ---- the harness's own bookkeeping (SPEC side; does not consult the model)
@@ -291,11 +365,14 @@ func (g *ltrGate) Information() *model.NodeManagementDetailedDiscoveryEntityInfo
 }
 
 type ltrWorld struct {
-	l     *spine.DeviceLocal
-	es    map[int]*spine.EntityLocal
-	gs    map[int]*ltrGate
-	peers []*ltrPeer
-	fails []bool // per peer: its connection cannot be written to
+	l          *spine.DeviceLocal
+	es         map[int]*spine.EntityLocal
+	gs         map[int]*ltrGate
+	peers      []*ltrPeer
+	fails      []bool // per peer: its connection cannot be written to
+	srcFeature uint   // feature number used as the source of the next datagram (0 = node management)
+	dt         int    // device type index (ltrDTypes)
+	fs         int    // feature set index (ltrFSets; 0 = none given)
 }
 
 // ent is the object handed to AddEntity / RemoveEntity for a slot
@@ -311,9 +388,9 @@ func (lw *ltrWorld) newEnt(k int, et model.EntityTypeType) {
 	lw.gs[k] = &ltrGate{EntityLocal: lw.es[k]}
 }
 
-func newLtrWorld(fails []bool) *ltrWorld {
-	l := spine.NewDeviceLocal("b", "m", "s", "c", "HEMS", model.DeviceTypeTypeEnergyManagementSystem, model.NetworkManagementFeatureSetTypeSmart)
-	lw := &ltrWorld{l: l, es: map[int]*spine.EntityLocal{}, gs: map[int]*ltrGate{}, fails: fails}
+func newLtrWorld(fails []bool, dt, fs int) *ltrWorld {
+	l := spine.NewDeviceLocal("b", "m", "s", "c", "HEMS", ltrDTypes[dt], ltrFSets[fs])
+	lw := &ltrWorld{l: l, es: map[int]*spine.EntityLocal{}, gs: map[int]*ltrGate{}, fails: fails, dt: dt, fs: fs}
 	lw.es[0] = l.Entity(spine.NewAddressEntityType([]uint{0})).(*spine.EntityLocal)
 	for k := 1; k < len(ltrSlots); k++ {
 		lw.newEnt(k, ltrETypes[0])
@@ -347,7 +424,7 @@ func (lw *ltrWorld) close() { spine.VerifUnsubscribeCore(lw.l) }
 func (lw *ltrWorld) send(p int, cl model.CmdClassifierType, ref *model.MsgCounterType, ack bool, c model.CmdType) uint64 {
 	pe := lw.peers[p]
 	pe.ctr++
-	hd := model.HeaderType{AddressSource: h.FA(pe.dev, []uint{0}, 0), AddressDestination: h.FA("HEMS", []uint{0}, 0),
+	hd := model.HeaderType{AddressSource: h.FA(pe.dev, []uint{0}, lw.srcFeature), AddressDestination: h.FA("HEMS", []uint{0}, 0),
 		MsgCounter: util.Ptr(model.MsgCounterType(pe.ctr)), MsgCounterReference: ref, CmdClassifier: &cl}
 	if ack {
 		hd.AckRequest = &ack
@@ -363,6 +440,7 @@ type ltrRecv struct {
 	other    []string        // everything else, described
 	ucN      int             // use-case notifies
 	replies  []model.DatagramType
+	dests    []model.DatagramType // destination-list replies
 }
 
 func (lw *ltrWorld) take(p int) ltrRecv {
@@ -381,6 +459,8 @@ func (lw *ltrWorld) take(p int) ltrRecv {
 			rc.ucN++
 		case cl == model.CmdClassifierTypeReply && c.NodeManagementDetailedDiscoveryData != nil:
 			rc.replies = append(rc.replies, d.Datagram)
+		case cl == model.CmdClassifierTypeReply && c.NodeManagementDestinationListData != nil:
+			rc.dests = append(rc.dests, d.Datagram)
 		case cl == model.CmdClassifierTypeResult:
 			// acknowledgement of a subscription call: not part of the observation
 		default:
@@ -447,16 +527,24 @@ func ltrAtoi(f []string) []int {
 // runLtrHistory executes one history of the tree part on a fresh world.
 func runLtrHistory(r *h.Report, d *h.Driver, ops []string) {
 	fails := make([]bool, 3)
+	devT, devF := 0, 3 // default device: energy management system, feature set smart
 	if len(ops) > 0 && strings.HasPrefix(ops[0], "world ") {
 		fl := strings.Fields(ops[0])
-		if len(fl) != 2 || len(fl[1]) != 3 || strings.Trim(fl[1], "01") != "" {
+		if (len(fl) != 2 && len(fl) != 4) || len(fl[1]) != 3 || strings.Trim(fl[1], "01") != "" {
 			panic("bad op " + ops[0])
 		}
 		for i, c := range fl[1] {
 			fails[i] = c == '1'
 		}
+		if len(fl) == 4 {
+			c := ltrAtoi(fl[2:])
+			if c[0] < 0 || c[0] >= len(ltrDTypes) || c[1] < 0 || c[1] >= len(ltrFSets) {
+				panic("bad op " + ops[0])
+			}
+			devT, devF = c[0], c[1]
+		}
 	}
-	lw := newLtrWorld(fails)
+	lw := newLtrWorld(fails, devT, devF)
 	defer lw.close()
 	d.Ask("reset")
 	ucData := false // SPEC side: use-case data exists (set by the first AddUseCaseSupport)
@@ -467,6 +555,9 @@ func runLtrHistory(r *h.Report, d *h.Driver, ops []string) {
 		e0 := &ltrBkEnt{etype: 0, maxID: 1}
 		f0 := &ltrBkFeat{id: 0, typ: 90, role: 2, fns: map[int][2]bool{}, obj: nm}
 		for i := 0; i < 9; i++ {
+			if i == 8 && (devF == 0 || devF == 4) {
+				continue // the destination list is announced only with a feature set other than simple
+			}
 			f0.fns[100+i] = [2]bool{i != 3 && i != 4 && i != 6 && i != 7, false}
 		}
 		f1 := &ltrBkFeat{id: 1, typ: 91, role: 1, fns: map[int][2]bool{109: {true, false}}, obj: lw.es[0].FeatureOfAddress(util.Ptr(model.AddressFeatureType(1)))}
@@ -492,6 +583,9 @@ func runLtrHistory(r *h.Report, d *h.Driver, ops []string) {
 				panic("driver: " + a)
 			}
 			r.Eval("world:"+f[1], "")
+			if len(f) == 4 {
+				r.Eval("device:"+f[2]+"/"+f[3], "")
+			}
 			continue
 		}
 		held, heldP, heldK := false, -1, -1
@@ -509,12 +603,12 @@ func runLtrHistory(r *h.Report, d *h.Driver, ops []string) {
 			f = f[3:]
 		}
 		a := ltrAtoi(f[1:])
-		need := map[string]int{"renew": 2, "attach": 1, "detach": 1, "feat": 3, "next": 1, "fn": 5, "descr": 3, "adduc": 1, "sub": 1, "unsub": 1, "read": 1}
+		need := map[string]int{"renew": 2, "attach": 1, "detach": 1, "feat": 3, "next": 1, "fn": 5, "descr": 3, "adduc": 1, "sub": 1, "unsub": 1, "read": 1, "dread": 2}
 		if n, ok := need[f[0]]; !ok || n != len(a) {
 			panic("bad op " + op)
 		}
 		switch f[0] {
-		case "sub", "unsub", "read":
+		case "sub", "unsub", "read", "dread":
 			if a[0] < 0 || a[0] >= len(lw.peers) {
 				panic("bad peer in " + op)
 			}
@@ -695,6 +789,10 @@ func runLtrHistory(r *h.Report, d *h.Driver, ops []string) {
 					kind = "fn:client"
 				} else {
 					kind = "fn:again"
+					if bf.fns[fn] != [2]bool{a[3] == 1, a[4] == 1} {
+						// observation, not judged: the guard in AddFunctionType keeps the flags of the first addition
+						kind = "fn:again-other-flags-ignored"
+					}
 				}
 			}
 		case "adduc":
@@ -717,9 +815,33 @@ func runLtrHistory(r *h.Report, d *h.Driver, ops []string) {
 			delete(bk.subs, p)
 		case "read":
 			lw.send(a[0], model.CmdClassifierTypeRead, nil, false, model.CmdType{NodeManagementDetailedDiscoveryData: &model.NodeManagementDetailedDiscoveryDataType{}})
+		case "dread":
+			// destination-list read: 0 plain, 1 with a partial filter, 2 with a selector filter, 3 from a feature the peer never announced
+			c := model.CmdType{NodeManagementDestinationListData: &model.NodeManagementDestinationListDataType{}}
+			switch a[1] {
+			case 1:
+				c.Function = util.Ptr(model.FunctionTypeNodeManagementDestinationListData)
+				c.Filter = []model.FilterType{*model.NewFilterTypePartial()}
+			case 2:
+				c.Function = util.Ptr(model.FunctionTypeNodeManagementDestinationListData)
+				fl := model.NewFilterTypePartial()
+				fl.NodeManagementDestinationListDataSelectors = &model.NodeManagementDestinationListDataSelectorsType{}
+				c.Filter = []model.FilterType{*fl}
+			case 3:
+				lw.srcFeature = 7
+			}
+			kind = fmt.Sprintf("dread:%d", a[1])
+			pan = h.Recover(func() { lw.send(a[0], model.CmdClassifierTypeRead, nil, false, c) })
+			lw.srcFeature = 0
 		}
 		if pan != nil {
-			fail("panic", fmt.Sprintf("%s panicked: %v", op, pan))
+			key := "panic"
+			if f[0] == "fn" && a[0] == 0 && a[2] == 6 {
+				// AddFunctionType(deviceDiagnosisHeartbeatData) on a DeviceDiagnosis server feature of entity [0]:
+				// that entity has no heartbeat manager
+				key = "heartbeat-function-on-device-information-entity-panics"
+			}
+			fail(key, fmt.Sprintf("%s panicked: %v", op, pan))
 			return
 		}
 
@@ -742,6 +864,14 @@ func runLtrHistory(r *h.Report, d *h.Driver, ops []string) {
 				obs = append(obs, s)
 				if !monitor {
 					continue
+				}
+				if di := c.NodeManagementDetailedDiscoveryData.DeviceInformation; di == nil || ltrDevStr(di.Description) != fmt.Sprintf("0:%d:%d", lw.dt, lw.fs) {
+					fail("notification-device-description-differs", fmt.Sprintf("peer %d: the notification after %s does not describe the device as constructed", p, op))
+				}
+				for _, v := range views {
+					if bad := v.partialOK(); bad != "" {
+						fail("partial-flag-without-operation", fmt.Sprintf("notification to peer %d: %s", p, bad))
+					}
 				}
 				switch {
 				case f[0] == "attach" && state == "added" && k == a[0]:
@@ -799,6 +929,26 @@ func runLtrHistory(r *h.Report, d *h.Driver, ops []string) {
 					fail("discovery-reply-count", fmt.Sprintf("after %s peer %d received %d discovery replies", op, p, len(rc.replies)))
 				}
 			}
+			wantDests := 0
+			if f[0] == "dread" && p == a[0] && a[1] != 3 && !fails[p] {
+				wantDests = 1
+			}
+			if monitor && len(rc.dests) != wantDests {
+				fail("destination-list-reply-count", fmt.Sprintf("after %s peer %d received %d destination-list replies, expected %d", op, p, len(rc.dests), wantDests))
+			}
+			for _, dg := range rc.dests {
+				var es []string
+				for _, e := range dg.Payload.Cmd[0].NodeManagementDestinationListData.NodeManagementDestinationData {
+					es = append(es, ltrDevStr(e.DeviceDescription))
+				}
+				obs = append(obs, fmt.Sprintf("L %d %s", p, strings.Join(es, ",")))
+				if want := fmt.Sprintf("0:%d:%d", lw.dt, lw.fs); monitor && strings.Join(es, ",") != want {
+					fail("destination-list-contents-differ", fmt.Sprintf("destination list [%s] (address:type:featureSet per entry), expected the one entry %s of the local device", strings.Join(es, ","), want))
+				}
+				if hd := dg.Header; monitor && (hd.MsgCounterReference == nil || uint64(*hd.MsgCounterReference) != lw.peers[p].ctr) {
+					fail("reply-wrong-reference", "destination-list reply does not reference the read")
+				}
+			}
 			for _, dg := range rc.replies {
 				var alts [][]int // entity lists the reply may show: a held read may show the tree before or after the operation
 				if held {
@@ -814,6 +964,9 @@ func runLtrHistory(r *h.Report, d *h.Driver, ops []string) {
 		line := op
 		if f[0] == "descr" {
 			line = fmt.Sprintf("descr %d %d %d", a[0], a[1], 1000+a[2]) // the model carries the description's code
+		}
+		if f[0] == "dread" {
+			line = fmt.Sprintf("dread %d %d", a[0], h.B2i(a[1] != 3)) // the model only distinguishes a known from an unknown source
 		}
 		want := d.Ask(line)
 		if want != "-" {
@@ -840,6 +993,13 @@ func ltrReply(r *h.Report, lw *ltrWorld, bk *ltrBk, p int, dg model.DatagramType
 			r.SpecFail("C07/"+key, done, detail)
 		}
 	}
+	devS := "-1:-1:0"
+	if dd.DeviceInformation != nil {
+		devS = ltrDevStr(dd.DeviceInformation.Description)
+	}
+	if want := fmt.Sprintf("0:%d:%d", lw.dt, lw.fs); devS != want {
+		fail("reply-device-description-differs", fmt.Sprintf("the reply describes the device as %s (address:type:featureSet), it was constructed as %s", devS, want))
+	}
 	var es, fs, gotE, gotF []string
 	for _, ei := range dd.EntityInformation {
 		k, et := -1, -1
@@ -860,6 +1020,9 @@ func ltrReply(r *h.Report, lw *ltrWorld, bk *ltrBk, p int, dg model.DatagramType
 		v := ltrViewOf(fi)
 		fs = append(fs, fmt.Sprintf("%d/%s", v.slot, v.modelStr()))
 		gotF = append(gotF, fmt.Sprintf("%d/%s", v.slot, v.specStr()))
+		if bad := v.partialOK(); bad != "" {
+			fail("partial-flag-without-operation", fmt.Sprintf("feature %d/%d: %s", v.slot, v.id, bad))
+		}
 		key := fmt.Sprintf("%d/%d", v.slot, v.id)
 		if seen[key] {
 			fail("feature-address-announced-twice", "address "+key+" appears twice in the reply")
@@ -916,7 +1079,7 @@ func ltrReply(r *h.Report, lw *ltrWorld, bk *ltrBk, p int, dg model.DatagramType
 			fail("reply-wrong-reference", "discovery reply does not reference the read")
 		}
 	}
-	return fmt.Sprintf("R %d E %s | F %s", p, strings.Join(es, ","), strings.Join(fs, ";"))
+	return fmt.Sprintf("R %d D %s E %s | F %s", p, devS, strings.Join(es, ","), strings.Join(fs, ";"))
 }
 
 func ltrTypeOf(code int) model.FeatureTypeType {
@@ -948,13 +1111,22 @@ func ltrGenHistory(rng *rand.Rand, n int) []string {
 	}
 	// writer faults as a dimension: in half of the histories one or two peers have a connection that cannot be
 	// written to; the subscription order is permuted so that a failing peer comes first, in the middle or last
-	if rng.Intn(2) == 0 {
+	{
 		fl := []byte("000")
-		fl[rng.Intn(3)] = '1'
-		if rng.Intn(3) == 0 {
+		if rng.Intn(2) == 0 {
 			fl[rng.Intn(3)] = '1'
+			if rng.Intn(3) == 0 {
+				fl[rng.Intn(3)] = '1'
+			}
 		}
-		ops = append([]string{"world " + string(fl)}, ops...)
+		// the device's constructor arguments as a dimension: device type, feature set (none, gateway, router, smart, simple)
+		w := "world " + string(fl)
+		if rng.Intn(3) > 0 {
+			w += fmt.Sprintf(" %d %d", rng.Intn(len(ltrDTypes)), rng.Intn(len(ltrFSets)))
+		}
+		if w != "world 000" {
+			ops = append([]string{w}, ops...)
+		}
 	}
 	perm := rng.Perm(3)
 	nsub := 1 + rng.Intn(3)
@@ -1013,7 +1185,15 @@ func ltrGenHistory(rng *rand.Rand, n int) []string {
 			emit(fmt.Sprintf("next %d", k))
 			nextID[k]++
 		case x < 50:
-			emit(fmt.Sprintf("fn %d %d %d %d %d", k, pickFeat(k), rng.Intn(len(ltrFns)), rng.Intn(2), rng.Intn(2)))
+			fn := rng.Intn(len(ltrFns))
+			if k == 0 && fn == 6 {
+				fn = 0 // the heartbeat function on the device-information entity is probed separately (it panics)
+			}
+			fid := pickFeat(k)
+			emit(fmt.Sprintf("fn %d %d %d %d %d", k, fid, fn, rng.Intn(2), rng.Intn(2)))
+			if rng.Intn(4) == 0 {
+				emit(fmt.Sprintf("fn %d %d %d %d %d", k, fid, fn, rng.Intn(2), rng.Intn(2))) // the same function again, possibly with other flags
+			}
 		case x < 55:
 			emit(fmt.Sprintf("descr %d %d %d", k, pickFeat(k), rng.Intn(3)))
 		case x < 67:
@@ -1074,9 +1254,14 @@ func ltrGenHistory(rng *rand.Rand, n int) []string {
 				emit(fmt.Sprintf("sub %d", p)) // subscribing twice
 			}
 		default:
-			emit(fmt.Sprintf("read %d", rng.Intn(3)))
+			if rng.Intn(5) == 0 {
+				emit(fmt.Sprintf("dread %d %d", rng.Intn(3), rng.Intn(4)))
+			} else {
+				emit(fmt.Sprintf("read %d", rng.Intn(3)))
+			}
 		}
 	}
+	emit(fmt.Sprintf("dread %d %d", rng.Intn(3), rng.Intn(3)))
 	emit("read 1")
 	emit("read 0")
 	return ops
@@ -1437,12 +1622,14 @@ func TestLocalTree(t *testing.T) {
 		}
 		d := h.StartDriver("drv_ltree")
 		defer d.Close()
+		ltrSendNames(d)
 		runLtrHistory(r, d, ops)
 		return
 	}
 
 	// ================= part 1: the tree
 	d := h.StartDriver("drv_ltree")
+	ltrSendNames(d)
 	corpus := [][]string{
 		// the probe of DESIGN section 8: one subscriber, one bystander
 		{"sub 0", "renew 1 1", "feat 1 0 1", "fn 1 1 0 1 1", "attach 1", "adduc 1", "detach 1", "read 0", "read 1"},
@@ -1459,6 +1646,22 @@ func TestLocalTree(t *testing.T) {
 	corpus = append(corpus,
 		[]string{"sub 0", "renew 1 1", "renew 2 2", "renew 4 3", "feat 1 2 0", "feat 2 3 0", "feat 4 0 0", "attach 1", "attach 2", "attach 4", "read 1", "readheld 1 1 detach 2", "read 1", "readheld 2 4 attach 2", "read 0", "readheld 0 1 detach 1", "read 1"},
 		[]string{"renew 1 1", "renew 2 2", "renew 3 3", "attach 3", "attach 2", "attach 1", "readheld 1 3 detach 3", "readheld 1 2 detach 1", "readheld 1 2 attach 3", "readheld 0 1 attach 1", "read 1"})
+	// announced contents: every device type x feature set, destination-list reads plain / with filters / from an unknown
+	// feature, a feature of every role with and without functions, functions whose data does and does not support
+	// partial updates (LoadControl limits on a LoadControl feature: yes; on a Setpoint feature: foreign, no; device
+	// diagnosis state: not a list, no), all four flag combinations, re-adds with other flags, the heartbeat function
+	for dt := range ltrDTypes {
+		for fs := range ltrFSets {
+			corpus = append(corpus, []string{fmt.Sprintf("world 000 %d %d", dt, fs), "dread 0 0", "dread 1 1", "dread 2 2", "dread 0 3", "sub 1", "renew 1 1",
+				"feat 1 0 1", "fn 1 1 0 1 1", "fn 1 1 0 1 0", "fn 1 1 1 0 1", "fn 1 1 2 1 1", "fn 1 1 3 0 0",
+				"feat 1 1 1", "fn 1 2 0 1 1", "fn 1 2 2 0 1", "fn 1 2 2 1 1",
+				"feat 1 2 1", "fn 1 3 3 1 1", "fn 1 3 6 1 0", "feat 1 2 0", "fn 1 4 3 1 1", "feat 1 4 2", "fn 1 5 4 1 1", "fn 1 5 3 0 1", "feat 1 3 1",
+				"attach 1", "read 0", "dread 1 0", "fn 0 0 0 1 1", "fn 0 1 0 0 1", "read 2"})
+		}
+	}
+	// probe: the heartbeat function on a DeviceDiagnosis server feature of the device-information entity (a valid
+	// configuration; the monitor reports a panic, the model announces the function like any other)
+	corpus = append(corpus, []string{"feat 0 2 1", "fn 0 2 3 1 0", "fn 0 2 6 1 0", "read 0", "renew 1 1", "feat 1 2 1", "fn 1 1 6 1 0", "attach 1", "read 0"})
 	// a failing connection first / in the middle / last among three subscribers: the others are served all the same
 	for _, w := range [][]string{{"world 100", "sub 0", "sub 1", "sub 2"}, {"world 010", "sub 0", "sub 1", "sub 2"}, {"world 001", "sub 0", "sub 1", "sub 2"},
 		{"world 110", "sub 1", "sub 2", "sub 0"}, {"world 011", "sub 2", "sub 0", "sub 1"}} {
@@ -1477,12 +1680,12 @@ func TestLocalTree(t *testing.T) {
 	if r.MismatchN == 0 {
 		r.Floor("GetOrAddFeature calls that created a feature", r.Dist["feat:new"], r.Dist["feat:new"]+r.Dist["feat:existing"], 0.30)
 		r.Floor("GetOrAddFeature calls that found the feature", r.Dist["feat:existing"], r.Dist["feat:new"]+r.Dist["feat:existing"], 0.15)
-		fnAll := r.Dist["fn:added"] + r.Dist["fn:client"] + r.Dist["fn:again"] + r.Dist["fn:no-such-feature"]
+		fnAll := r.Dist["fn:added"] + r.Dist["fn:client"] + r.Dist["fn:again"] + r.Dist["fn:again-other-flags-ignored"] + r.Dist["fn:no-such-feature"]
 		r.Floor("AddFunctionType calls that added a function", r.Dist["fn:added"], fnAll, 0.30)
 		r.Floor("entity additions and removals among the ops", r.Dist["attach"]+r.Dist["detach"]+r.Dist["readheld:attach"]+r.Dist["readheld:detach"], r.Evaluations, 0.04)
 		nw := 0
 		for k, v := range r.Dist {
-			if strings.HasPrefix(k, "world:") {
+			if strings.HasPrefix(k, "world:") && k != "world:000" {
 				nw += v
 			}
 		}
@@ -1563,6 +1766,7 @@ func TestLocalTree(t *testing.T) {
 	}
 	d = h.StartDriver("drv_ltree")
 	defer d.Close()
+	ltrSendNames(d)
 	rerun := func(q *h.Report, ops []string) {
 		if isFeat(ops) {
 			runLtrFeatHistory(q, df, cfg, ops)
